@@ -10,8 +10,10 @@ import (
 
 	appsv1 "k8s.io/api/apps/v1"
 	corev1 "k8s.io/api/core/v1"
+	apierrors "k8s.io/apimachinery/pkg/api/errors"
 	metav1 "k8s.io/apimachinery/pkg/apis/meta/v1"
 	"k8s.io/apimachinery/pkg/runtime"
+	"k8s.io/apimachinery/pkg/runtime/schema"
 	"k8s.io/client-go/kubernetes/fake"
 	k8stesting "k8s.io/client-go/testing"
 
@@ -25,12 +27,13 @@ type c18Case struct {
 	New       int    `json:"new"`
 	Templates int    `json:"templates"`
 	DeletePVC bool   `json:"deletePVC"`
-	Order     int    `json:"podOrder"`  // index of a permutation class
-	Ready     uint32 `json:"readyMask"` // bit k: pod k has an IP
-	Updating  int    `json:"updating"`  // 0: up to date, 1: rolling update in progress
-	TwoSets   bool   `json:"twoSets"`   // a second StatefulSet with a similar name exists
-	Then      int    `json:"then"`      // >= 0: a second ChangeScale(Then) on the SAME manager object (the coordinator calls it twice per cycle)
-	External  int    `json:"external"`  // >= 0: somebody else scales the StatefulSet to this count between Replicas() and ChangeScale()
+	Order     int    `json:"podOrder"`              // index of a permutation class
+	Ready     uint32 `json:"readyMask"`             // bit k: pod k has an IP
+	Updating  int    `json:"updating"`              // 0: up to date, 1: rolling update in progress
+	TwoSets   bool   `json:"twoSets"`               // a second StatefulSet with a similar name exists
+	Then      int    `json:"then"`                  // >= 0: a second ChangeScale(Then) on the SAME manager object (the coordinator calls it twice per cycle)
+	UpdFail   string `json:"updateFails,omitempty"` // "conflict" | "error": the StatefulSet update of the (first) ChangeScale is rejected by the API server
+	External  int    `json:"external"`              // >= 0: somebody else scales the StatefulSet to this count between Replicas() and ChangeScale()
 }
 
 const maxN = 12 // ordinals >= 10 matter: "prom-10" sorts before "prom-2" as a string
@@ -82,6 +85,20 @@ func c18Cases(tier string) []c18Case {
 		// rolling update in progress
 		for order := 0; order < 2; order++ {
 			cs = append(cs, c18Case{Old: old, New: old, Templates: 1, Order: order, Ready: (1 << uint(old)) - 1, Updating: 1, TwoSets: true, Then: -1, External: -1})
+		}
+	}
+	// the API server rejects the StatefulSet update (optimistic-lock conflict with the controller's status
+	// writes, or a server error): the count stays, every shard remains, so no claim may go
+	for _, old := range []int{1, 2, 3, 5, 12} {
+		for _, nw := range []int{0, 1, old - 1, old + 2} {
+			if nw < 0 || nw == old {
+				continue
+			}
+			for _, kind := range []string{"conflict", "error"} {
+				for _, tpl := range []int{1, 2} {
+					cs = append(cs, c18Case{Old: old, New: nw, Templates: tpl, DeletePVC: true, Ready: (1 << uint(old)) - 1, Then: -1, External: -1, UpdFail: kind})
+				}
+			}
 		}
 	}
 	return cs
@@ -263,10 +280,31 @@ func runC18(w *core.WorkerCtx, idx int) *core.CaseResult {
 	}
 	var deletedAll []string
 	updatesAll := 0
+	if c.UpdFail != "" {
+		cli.PrependReactor("update", "statefulsets", func(k8stesting.Action) (bool, runtime.Object, error) {
+			if c.UpdFail == "conflict" {
+				return true, nil, apierrors.NewConflict(schema.GroupResource{Group: "apps", Resource: "statefulsets"}, set, fmt.Errorf("the object has been modified; please apply your changes to the latest version and try again"))
+			}
+			return true, nil, apierrors.NewInternalError(fmt.Errorf("etcdserver: request timed out"))
+		})
+	}
 	for _, stepNew := range steps {
 		cli.ClearActions()
-		if err := m.ChangeScale(int32(stepNew)); err != nil {
+		if err := m.ChangeScale(int32(stepNew)); err != nil && c.UpdFail == "" {
 			res.Violate("C18/change-scale-error", "ChangeScale(%d): %v", stepNew, err)
+		}
+		if c.UpdFail != "" {
+			res.AddStat("scale_changes_with_rejected_update", 1)
+			var gone []string
+			for _, a := range cli.Actions() {
+				if a.GetVerb() == "delete" && a.GetResource().Resource == "persistentvolumeclaims" {
+					gone = append(gone, a.(k8stesting.DeleteAction).GetName())
+				}
+			}
+			if sts, err := cli.AppsV1().StatefulSets(ns).Get(nil2ctx(), set, metav1.GetOptions{}); err == nil && sts.Spec.Replicas != nil && int(*sts.Spec.Replicas) == live && len(gone) > 0 {
+				res.Violate("C18/pvc-deleted/update-rejected", "the StatefulSet update of scale %d -> %d was rejected (%s), the count is still %d and every shard remains, yet claims %v were deleted", live, stepNew, c.UpdFail, live, gone)
+			}
+			continue
 		}
 		updates, deleted := 0, map[string]bool{}
 		var otherWrites []string
